@@ -10,7 +10,7 @@ from multiprocessing import Pool
 V = '/verif'
 ROOT = '/tmp/sw'
 PROPS = ['C%02d' % i for i in range(1, 21)]
-REFACTOR_TAGS = ('r', 's', 't')
+REFACTOR_TAGS = ('r', 's', 't', 'u')
 
 
 def work(args):
